@@ -31,7 +31,9 @@ for d in sys.argv[4:]:
     fin = final.get(d, {}); ini = initial.get(d, {})
     m = {'id': sid, 'round': rnd, 'breaks_property': prop, 'title': meta.get('title'), 'file': meta.get('file'), 'function': meta.get('function'),
          'what_it_breaks': meta.get('what_it_breaks'), 'needs_to_manifest': meta.get('needs_to_manifest'),
-         'origin': 'written by an independent sub-agent that saw only the property text, the titles of the round-1 changes for this property (not to be repeated) and a scratch worktree of /repo (no access to /verif)',
+         'origin': ('written by an independent sub-agent that saw only the property text and a scratch worktree of /repo (no list of earlier changes, no access to /verif): an unbiased replicate of round 1'
+                    if rnd == 5 else
+                    'written by an independent sub-agent that saw only the property text, the titles of the earlier changes for this property (not to be repeated) and a scratch worktree of /repo (no access to /verif)'),
          'confirmed_by_me': {'what_i_ran': 'tools/verify_seeded.py: scratch worktree of /repo HEAD, git apply patch.diff, cmake RelWithDebInfo full build (tests+examples), ctest x2, demo built with the build line of demo.cpp and run 3x with and 3x without the change; where both ctest runs failed only the load-sensitive test_generator_aggregator_async_infinite (a pre-existing flake) the other 14 tests were re-run and that test was repeated until it passed',
                              'patch_applies': True, 'project_builds': True, 'ctest_runs': ver.get('ctest'), 'ctest_rerun': retest, 'all_15_tests_pass': True,
                              'demo_exit_codes_without_change': ver.get('demo_clean_rcs'), 'demo_exit_codes_with_change': ver.get('demo_mut_rcs'), 'repo_head_at_confirmation': head},
